@@ -261,7 +261,7 @@ func ruleDrainComplete(w *World, r *Report, rule string, la *LockAnalysis) {
 		}
 		// the traversal is on every path past the gate
 		if c.list != nil {
-			key := "closedall:" + c.owner + "." + c.list.Name() + ":"
+			key := "closedall:" + w.canonField(c.list) + ":"
 			where, ok := c.mustAtWonExits(key+"rev", key+"fwd")
 			r.Check(ok, rule, c.fi.Name()+"#disposal-on-all-paths", c.fi.Decl.Pos(), true,
 				"every path past the gate completes the disposal loop",
@@ -314,12 +314,12 @@ func ruleSwap(w *World, r *Report, rule string, la *LockAnalysis) {
 			case *ast.AssignStmt:
 				for _, rhs := range s.Rhs {
 					if fv := fieldOf(info, rhs); fv != nil {
-						gen = append(gen, "snap:"+fv.Name())
+						gen = append(gen, "snap:"+c.ca.w.canonName(fv))
 					}
 				}
 			case ast.Expr: // range expression
 				if fv := fieldOf(info, s); fv != nil {
-					gen = append(gen, "snap:"+fv.Name())
+					gen = append(gen, "snap:"+c.ca.w.canonName(fv))
 				}
 			}
 			return
@@ -339,7 +339,7 @@ func ruleSwap(w *World, r *Report, rule string, la *LockAnalysis) {
 				default:
 					continue
 				}
-				con := c.fi.Name() + "#reset:" + fv.Name()
+				con := c.fi.Name() + "#reset:" + c.ca.w.canonName(fv)
 				// fields that are only reset, never handed on (cache), need no snapshot
 				usedAsSnapshot := false
 				for _, l := range c.ca.reachableLoops() {
@@ -351,7 +351,7 @@ func ruleSwap(w *World, r *Report, rule string, la *LockAnalysis) {
 					r.OK(rule, con, as.Pos(), false, "table is reset without being handed on")
 					continue
 				}
-				if sol.Before[n].Has("snap:" + fv.Name()) {
+				if sol.Before[n].Has("snap:" + c.ca.w.canonName(fv)) {
 					r.OK(rule, con, as.Pos(), true, "snapshot and reset of %s happen inside one critical section: each entry is handed to exactly one Close call", fv.Name())
 				} else {
 					r.Fail(rule, con, as.Pos(), "%s is reset to nil in a different critical section than the one that took its snapshot: entries added in between are dropped without being closed", fv.Name())
@@ -401,7 +401,7 @@ func ruleCloseOrder(w *World, r *Report, rule string) {
 			for _, n := range c.ca.flow.Nodes() {
 				for _, call := range callsIn(n, false) {
 					if rcv, k, ok := isCloseCall(c.fi.Pkg.TypesInfo, call); ok && k == "scope" {
-						if fv := fieldOf(c.fi.Pkg.TypesInfo, rcv); fv != nil && fv.Name() == "rootScope" {
+						if fv := fieldOf(c.fi.Pkg.TypesInfo, rcv); fv != nil && c.ca.w.canonName(fv) == "rootScope" {
 							_, scopes := c.ca.sol.Before[n].HasPrefix("closedall:provider.scopes:")
 							r.Check(scopes, rule, c.fi.Name()+"#order:root-after-scopes", call.Pos(), true,
 								"the root scope is closed after every tracked scope",
